@@ -314,9 +314,12 @@ def run(d, mode, opts=None, env_extra=None, cwd=None):
     env.pop("PYTHONHASHSEED", None)
     env.update(env_extra or {})
     p = subprocess.run([sys.executable, os.path.join(d, "runner.py"), d, mode, json.dumps(opts or {})], capture_output=True, text=True, env=env, cwd=cwd or d, timeout=300)
-    if p.returncode != 0:
-        return {"error": "runner crashed: " + p.stderr[-400:], "value": None, "calls": [], "sigs": {}}
-    return json.loads(p.stdout.strip().split("\n")[-1])
+    lines = [l for l in p.stdout.strip().split("\n") if l.startswith("{")]
+    if lines:  # the result is what the runner printed (a native library aborting at interpreter shutdown does not change it)
+        return json.loads(lines[-1])
+    if "Traceback" not in p.stderr:
+        raise RuntimeError("the runner process died without a Python error: " + p.stderr[-300:])
+    return {"error": "runner crashed: " + p.stderr[-400:], "value": None, "calls": [], "sigs": {}}
 
 
 def edit(d, rel, old, new):
